@@ -340,8 +340,51 @@ func cmdCheck(args []string) int {
 					f.Class = q.Res.Status
 					// keep the script for the replay file
 					f.SMTFile = q.Script
-					if q.Res.Model != "" {
-						f.Input = "model: " + truncate(q.Res.Model, 1500)
+					// counterexample: from the solver's model, else from a model of the query with its
+					// quantified assumptions dropped (a candidate only); confirmed by replay on the real code
+					var ins []DecodedInput
+					got := false
+					if q.Res.Status == "sat" {
+						ins, got = modelInputs(e.workdir, q.Script, q.Inputs, 10)
+					}
+					candidate := false
+					if !got && len(q.Inputs) > 0 {
+						ins, got = modelInputs(e.workdir, dropQuantified(q.Script), q.Inputs, 10)
+						candidate = got
+					}
+					if got {
+						var shown []string
+						for _, d := range ins {
+							shown = append(shown, d.Show)
+						}
+						desc := strings.Join(shown, " ")
+						if strings.HasPrefix(o.Name, "lemma/") {
+							ln := strings.Split(o.Name, "/")[1]
+							if lm := e.cs.Lemmas[ln]; lm != nil {
+								if ok, what, cmdline := e.replayLemma(*repo, filepath.Join(work, "replay"), lm, ins); ok {
+									f.Input = desc
+									f.NoInput = false
+									f.Detail += " — replayed on the real code: " + what
+									f.Replay = cmdline
+								} else if !candidate {
+									f.Detail += " — solver counterexample (not replayed on the real code): " + desc
+								}
+							}
+						} else if panicKinds[o.Kind] {
+							fk := o.Func
+							full := modPath + "/" + fk
+							if strings.HasPrefix(fk, "poly.") {
+								full = modPath + "." + strings.TrimPrefix(fk, "poly.")
+							}
+							if ok, what, cmdline := e.replayPanic(*repo, filepath.Join(work, "replay"), full, ins); ok {
+								f.Input = desc
+								f.NoInput = false
+								f.Detail += " — replayed on the real code: " + what
+								f.Replay = cmdline
+							}
+						} else if !candidate {
+							f.Detail += " — solver counterexample (not replayed on the real code): " + desc
+						}
 					}
 					break
 				}
